@@ -178,7 +178,7 @@ func sliceDT(es *Sort) *DTDecl {
 		return s.DT
 	}
 	d := NewDT(name)
-	d.Cons = []DTCons{{Name: "mk_" + name, Fields: []DTField{{name + ".arr", ArraySort(SInt, es)}, {name + ".len", SInt}}}}
+	d.Cons = []DTCons{{Name: "mk_" + name, Fields: []DTField{{name + ".arr", ArraySort(SInt, es)}, {name + ".len", SInt}, {name + ".isnil", SBool}}}}
 	return d
 }
 
@@ -214,8 +214,12 @@ func isMapSort(s *Sort) bool   { return s.Kind == KDT && strings.HasPrefix(s.Nam
 func SlArr(x *Term) *Term { return Sel(x.Sort.DT, 0, 0, x) }
 func SlLen(x *Term) *Term { return Sel(x.Sort.DT, 0, 1, x) }
 func MkSl(es *Sort, arr, n *Term) *Term {
-	return Cons(sliceDT(es), 0, arr, n)
+	return Cons(sliceDT(es), 0, arr, n, False)
 }
+func MkSlNil(es *Sort, arr, n, isnil *Term) *Term {
+	return Cons(sliceDT(es), 0, arr, n, isnil)
+}
+func SlIsNil(x *Term) *Term { return Sel(x.Sort.DT, 0, 2, x) }
 func OptNone(es *Sort) *Term       { return Cons(optDT(es), 0) }
 func OptSome(x *Term) *Term        { return Cons(optDT(x.Sort), 1, x) }
 func OptIsSome(x *Term) *Term      { return Is(x.Sort.DT, 1, x) }
@@ -257,7 +261,7 @@ func zeroTerm(t types.Type) *Term {
 			return Cons(s.DT, 0, args...)
 		case *types.Slice:
 			es := sortOf(u.Elem())
-			return MkSl(es, ConstArr(ArraySort(SInt, es), zeroTerm(u.Elem())), IntLit(0))
+			return MkSlNil(es, ConstArr(ArraySort(SInt, es), zeroTerm(u.Elem())), IntLit(0), True)
 		case *types.Pointer:
 			return Cons(s.DT, 0)
 		case *types.Map:
